@@ -158,6 +158,11 @@ CASES = [
     ("m-c14-load-bytes-key", "C14", "fire", "xdis/marsh.py", "        if not isinstance(c, str):\n            # type codes are kept as text; a binary file gives bytes\n            c = c.decode(\"latin-1\")\n", "", "dispatch-key-is-text"),
     ("m-c14-ord-py3", "C14", "fire", "xdis/marsh.py", "    return c if isinstance(c, int) else ord(c)", "    return c if PYTHON3 else ord(c)", "integer-from-bytes"),
     ("s-c14-load-chr-key", "C14", "silent", "xdis/marsh.py", "            c = c.decode(\"latin-1\")\n        try:\n            return self.dispatch[c](self)", "            c = c.decode(\"ascii\", \"replace\")\n        try:\n            return self.dispatch[c](self)", ""),
+    ("m-c10-long-sign", "C10", "fire", "xdis/unmarshal.py", "        if n < 0:\n            d = long(d * -1)", "        if n > 0:\n            d = long(d * -1)", "long:sign"),
+    ("m-c10-long-weight", "C10", "fire", "xdis/unmarshal.py", "            d += md << j * 15", "            d += md << j * 16", "long:accumulation"),
+    ("m-c14-long-sign", "C14", "fire", "xdis/marsh.py", "        sign = 1\n        if size < 0:\n            sign = -1\n            size = -size\n        x = 0\n        for i in range(size):\n            d = _r_short(self)", "        sign = 1\n        size = abs(size)\n        if size < 0:\n            sign = -1\n        x = 0\n        for i in range(size):\n            d = _r_short(self)", "long:sign"),
+    ("m-c14-long-weight", "C14", "fire", "xdis/marsh.py", "            d = _r_short(self)\n            x = x | (d << (i * 15))", "            d = _r_short(self)\n            x = x | (d << (i * 16))", "long:accumulation"),
+    ("s-c14-long-add", "C14", "silent", "xdis/marsh.py", "            d = _r_short(self)\n            x = x | (d << (i * 15))", "            d = _r_short(self)\n            x += d * (1 << (15 * i))", ""),
 ]
 
 
